@@ -1,6 +1,8 @@
 package gateway
 
 import (
+	"strings"
+
 	hydrapb "github.com/hydraide/hydraide/sdk/go/hydraidego/v3/hydraidepbgo"
 )
 
@@ -147,6 +149,11 @@ func indexableHint(f *hydrapb.TreasureFilter) (BucketHint, bool) {
 	}
 	path := f.GetBytesFieldPath()
 	if path == "" {
+		return BucketHint{}, false
+	}
+	// [*] / #len are evaluator-only path syntax: the bucket indexes plain
+	// dotted fields, so such a leg must stay on the per-row predicate.
+	if strings.Contains(path, "[*]") || strings.Contains(path, "#len") {
 		return BucketHint{}, false
 	}
 	switch f.GetOperator() {
